@@ -154,7 +154,9 @@ def run_kani_unit(unit_name, gen, cfg, harness_filter, tier, use_cache=True, job
             res['cached'] = False
             results[h] = res
             # only cache decided results (a timeout is not a result)
-            if res['status'] in ('Success', 'Failure') and not timed_out(res):
+            # only decided results are cached: a timeout, an out-of-memory run or a `Failure` without any failed check
+            # (CBMC died half-way) is not a result
+            if not timed_out(res) and (res['status'] == 'Success' or (res['status'] == 'Failure' and any(c['status'] == 'Failure' for c in res['checks']))):
                 with open(cp + '.%d.tmp' % os.getpid(), 'w') as f:
                     json.dump(res, f)
                 os.replace(cp + '.%d.tmp' % os.getpid(), cp)
